@@ -46,11 +46,14 @@ CONFIGS = {
     'crc_sw': (['-DJLS_OPTIMIZE_CRC_DISABLE=1'], ['crc32c.c']),
     'assert': (['-UNDEBUG'], None),
     'logall': (['-DJLS_LOG_LEVEL=JLS_LOG_LEVEL_ALL'], None),
+    # the NEON CRC unit is not reachable from crc32c.c on this platform: parse it stand-alone for aarch64
+    'neon': (['--target=aarch64-linux-gnu', '-march=armv8-a+crc', '-ffreestanding', '-isystem', os.path.join(VERIF, 'tools', 'stubs')], ['crc32c_arm_neon.c']),
 }
 
 
 def unit_flags(repo, unit, extra):
-    return BASE_FLAGS + [
+    base = [f for f in BASE_FLAGS if not (f == '-msse4.2' and any(x.startswith('--target=aarch64') for x in extra))]
+    return base + [
         '-I' + os.path.join(repo, 'include'),
         '-I' + os.path.join(repo, 'include_prv'),
         '-D__FILENAME__="%s"' % unit,
@@ -65,7 +68,7 @@ def export(config='default', repo=REPO, outdir=None, units=None):
     extra, only = CONFIGS[config]
     srcs = units or cmake_sources(repo)
     if only and not units:
-        srcs = [s for s in srcs if s in only]
+        srcs = [s for s in srcs if s in only] or list(only)
     if outdir is None:
         outdir = tempfile.mkdtemp(prefix='jlsx-%s-' % config, dir=os.environ.get('JLS_SCRATCH', None))
     os.makedirs(outdir, exist_ok=True)
